@@ -560,6 +560,58 @@ def shadow_slice() -> Tuple[int, List[Violation]]:
     return n, viols
 
 
+# text that is not an expression at all: the grammar's outermost "anything else"
+NOT_EXPRESSIONS = ["", " ", "t +", "(t", "t)", "t t", "t = 1", "t == ", "1 +* 2", "def f(): pass", "import os", "t; u", "t\nu", "return t", "lambda", "[t for]",
+                   "t if u", "max(t,", "'unterminated", "t\x00", "0x", "1__0", "t.(u)", "@t", "(" * 250 + "t" + ")" * 250, "t +\n", "\tt", "yield", "t := 1"]
+
+
+def syntax_slice() -> Tuple[int, List[Violation]]:
+    """Strings that do not parse as an expression are rejected with the expression error too - by the evaluator and by the sweep factory -
+    not with whatever the parser (or an unbound local) raises."""
+    from semantiva.utils.safe_eval import ExpressionError, ExpressionEvaluator
+
+    viols: List[Violation] = []
+    n = 0
+    for src in NOT_EXPRESSIONS:
+        try:
+            ast.parse(src, mode="eval")
+            continue  # (it does parse in this interpreter: the enumeration proper covers it)
+        except (SyntaxError, ValueError, RecursionError, MemoryError):
+            pass
+        n += 1
+        for way in ("evaluator", "factory"):
+            try:
+                if way == "evaluator":
+                    ExpressionEvaluator().compile(src, {"t", "u"})
+                else:
+                    bad = judge_factory_raw(src)
+                    if bad is not None:
+                        raise bad
+                got = "accepted"
+            except ExpressionError:
+                continue
+            except BaseException as exc:  # noqa: BLE001
+                # the factory reports a refused expression as a ValueError naming the parameter, made from the expression error
+                if way == "factory" and isinstance(exc, ValueError) and isinstance(exc.__cause__ or exc.__context__, ExpressionError):
+                    continue
+                got = f"{type(exc).__name__}: {str(exc)[:80]}"
+            viols.append(Violation(f"not-an-expression-not-rejected-with-expression-error|{way}", f"{src[:40]!r} through the {way}: {got}",
+                                   {"kind": "syntax", "expr": src}))
+            break
+    return n, viols
+
+
+def judge_factory_raw(src: str):
+    """The exception the sweep factory raises for this expression text (None if it builds), ExpressionError-compatible ones included."""
+    judge_factory("t")  # fills _FACTORY
+    try:
+        _FACTORY["f"].create(element=_FACTORY["el"], element_kind="DataSource", collection_output=_FACTORY["coll"],
+                             vars={"t": _FACTORY["seq"]([1.0]), "u": _FACTORY["seq"]([2.0])}, parametric_expressions={"value": src})
+    except BaseException as exc:  # noqa: BLE001
+        return exc
+    return None
+
+
 def yaml_slice() -> Tuple[int, List[Violation]]:
     """A slice of unsafe expressions through the YAML derive.parameter_sweep path."""
     from semantiva.utils.safe_eval import ExpressionError
@@ -640,6 +692,9 @@ def check(tier: str, seed: int) -> Result:
     nsh, vsh = shadow_slice()
     viols.extend(vsh)
     ny += nsh
+    nsy, vsy = syntax_slice()
+    viols.extend(vsy)
+    ny += nsy
     # histories: what one evaluator was given must not widen what another accepts (each history in a fresh process)
     hs = histories(tier)
     base = None
@@ -688,6 +743,8 @@ def replay(case) -> List[Violation]:
                 if v and src == case["expr"]:
                     out.append(Violation(v[0] + "|after-history", v[1], case))
         return out
+    if case.get("kind") == "syntax":
+        return [x for x in syntax_slice()[1] if x.case.get("expr") == case["expr"]]
     if case.get("kind") == "shadow":
         return [x for x in shadow_slice()[1] if x.case.get("expr") == case["expr"]]
     if case.get("kind") == "yaml":
